@@ -21,6 +21,7 @@ TRUSTED = ['qsqrt/qcos/qsin are explicit function parameters of the generated ke
            'cos^2+sin^2==1 and qsqrt(x)^2==x at the arguments used']
 
 TOL = 1e-9
+_LOOSE = 1.0
 
 
 # ------------------------------------------------------------------ features
@@ -37,7 +38,8 @@ def feats(o):
     elif n in ('LineSegment2D', 'LineSegment3D'):
         pts = [o.p1, o.p2, o.midpoint, o.point_at(0.25)]; vecs = [o.v]; lens = [o.length]
     elif n in ('Arc2D', 'Arc3D'):
-        pts = [o.c, o.midpoint]
+        # a full circle has no distinguished start: only its centre/radius describe the point set
+        pts = [o.c] if o.is_circle else [o.c, o.midpoint]
         lens = [o.length, o.radius if n == 'Arc3D' else o.r]
         inv = [o.angle]
     elif n in ('Polyline2D', 'Polyline3D'):
@@ -75,58 +77,85 @@ def unit_dirs(o):
     return []
 
 
-def params(rng, op, is3d):
-    """(args for the method, reference point map, reference vector map, k, inverse args)"""
+def gen_args(rng, op, is3d):
+    """random arguments for the transform (ladybug objects / floats) and a bucket key"""
     if op == 'move':
         m = G.rvec3(rng, 1000.0) if is3d else G.rvec2(rng, 1000.0)
-        mv = V3(m) if is3d else V2(m)
-        fm = X.fpt(m)
-        return (mv,), (lambda p: X.add(p, fm)), (lambda v: v), 1, ((mv * -1),), ('move', 0)
+        return [V3(m) if is3d else V2(m)], ('move', 0)
     if op in ('rotate', 'rotate_xy'):
         ang = rng.uniform(-4 * math.pi, 4 * math.pi)
         if rng.random() < 0.2:
             ang = rng.choice([math.pi / 2, -math.pi / 2, math.pi, 2 * math.pi, -3 * math.pi, 0.0])
-        c, s = F(math.cos(ang)), F(math.sin(ang))
         bucket = int(ang // (math.pi / 2))
         if not is3d:
-            o = G.rpt2(rng, 1000.0); fo = X.fpt(o)
-            return (ang, P2(o)), (lambda p: X.add(X.rot2(X.sub(p, fo), c, s), fo)), (lambda v: X.rot2(v, c, s)), 1, \
-                (-ang, P2(o)), (op, bucket)
-        o = G.rpt3(rng, 1000.0); fo = X.fpt(o)
+            return [ang, P2(G.rpt2(rng, 1000.0))], (op, bucket)
+        o = P3(G.rpt3(rng, 1000.0))
         if op == 'rotate_xy':
-            ax = (Fraction(0), Fraction(0), Fraction(1))
-            return (ang, P3(o)), (lambda p: X.add(X.rodrigues(X.sub(p, fo), ax, c, s), fo)), \
-                (lambda v: X.rodrigues(v, ax, c, s)), 1, (-ang, P3(o)), (op, bucket)
+            return [ang, o], (op, bucket)
         axis = G.rvec3(rng, 10.0)
         if rng.random() < 0.2:
             axis = rng.choice([(0.0, 0.0, 1.0), (0.0, 0.0, -2.0), (1.0, 0.0, 0.0), (0.0, 3.0, 0.0)])
-        fa = X.fpt(axis)
-        return (V3(axis), ang, P3(o)), (lambda p: X.add(X.rodrigues(X.sub(p, fo), fa, c, s), fo)), \
-            (lambda v: X.rodrigues(v, fa, c, s)), 1, (V3(axis), -ang, P3(o)), (op, bucket)
+        return [V3(axis), ang, o], (op, bucket)
     if op == 'reflect':
         if is3d:
             fr = G.rational_frame(rng)
             nrm = fr[rng.randrange(3)]
-            o = G.rpt3(rng, 1000.0); fo, fn = X.fpt(o), X.fpt(nrm)
-            return (V3(nrm), P3(o)), (lambda p: X.add(X.householder(X.sub(p, fo), fn), fo)), \
-                (lambda v: X.householder(v, fn)), 1, (V3(nrm), P3(o)), (op, tuple(round(c, 2) for c in nrm))
+            return [V3(nrm), P3(G.rpt3(rng, 1000.0))], (op, tuple(round(c, 2) for c in nrm))
         c, s, _ = G.pythagorean_angle(rng)
-        nrm = (float(c), float(s))
-        o = G.rpt2(rng, 1000.0); fo, fn = X.fpt(o), X.fpt(nrm)
-        return (V2(nrm), P2(o)), (lambda p: X.add(X.householder(X.sub(p, fo), fn), fo)), \
-            (lambda v: X.householder(v, fn)), 1, (V2(nrm), P2(o)), (op, nrm)
+        return [V2((float(c), float(s))), P2(G.rpt2(rng, 1000.0))], (op, (float(c), float(s)))
     if op == 'scale':
         k = math.exp(rng.uniform(math.log(0.05), math.log(20)))
         k = G.dy(k, 12) or 0.5
-        fk = F(k)
         if rng.random() < 0.3:
-            return (k,), (lambda p: X.smul(fk, p)), (lambda v: X.smul(fk, v)), fk, (1.0 / k,), (op, round(math.log(k)))
+            return [k], (op, round(math.log(k)))
         o = G.rpt3(rng, 1000.0) if is3d else G.rpt2(rng, 1000.0)
-        fo = X.fpt(o)
-        op_ = P3(o) if is3d else P2(o)
-        return (k, op_), (lambda p: X.add(X.smul(fk, X.sub(p, fo)), fo)), (lambda v: X.smul(fk, v)), fk, \
-            (1.0 / k, op_), (op, round(math.log(k)))
+        return [k, P3(o) if is3d else P2(o)], (op, round(math.log(k)))
     raise KeyError(op)
+
+
+def ref_maps(op, args, is3d, isvec):
+    """independent exact-rational reference (point map, vector map, k, inverse args) for the given arguments"""
+    zero = (Fraction(0),) * (3 if is3d else 2)
+    if op == 'move':
+        fm = X.fpt(args[0])
+        return (lambda p: X.add(p, fm)), (lambda v: v), 1, [args[0] * -1]
+    if op in ('rotate', 'rotate_xy'):
+        if not is3d:
+            ang = args[0]
+            fo = zero if isvec else X.fpt(args[1])
+            c, s = F(math.cos(ang)), F(math.sin(ang))
+            return (lambda p: X.add(X.rot2(X.sub(p, fo), c, s), fo)), (lambda v: X.rot2(v, c, s)), 1, [-ang] + list(args[1:])
+        if op == 'rotate_xy':
+            ang = args[0]
+            fo = zero if isvec else X.fpt(args[1])
+            fa = (Fraction(0), Fraction(0), Fraction(1))
+            inv = [-ang] + list(args[1:])
+        else:
+            fa, ang = X.fpt(args[0]), args[1]
+            fo = zero if isvec else X.fpt(args[2])
+            inv = [args[0], -ang] + list(args[2:])
+        c, s = F(math.cos(ang)), F(math.sin(ang))
+        return (lambda p: X.add(X.rodrigues(X.sub(p, fo), fa, c, s), fo)), (lambda v: X.rodrigues(v, fa, c, s)), 1, inv
+    if op == 'reflect':
+        fn = X.fpt(args[0])
+        fo = zero if isvec else X.fpt(args[1])
+        return (lambda p: X.add(X.householder(X.sub(p, fo), fn), fo)), (lambda v: X.householder(v, fn)), 1, list(args)
+    if op == 'scale':
+        fk = F(args[0])
+        fo = X.fpt(args[1]) if len(args) > 1 else zero
+        return (lambda p: X.add(X.smul(fk, X.sub(p, fo)), fo)), (lambda v: X.smul(fk, v)), fk, [1.0 / args[0]] + list(args[1:])
+    raise KeyError(op)
+
+
+def ser(a):
+    return a.to_dict() if hasattr(a, 'to_dict') else a
+
+
+def deser(a):
+    if isinstance(a, dict):
+        from ladybug_geometry.dictutil import geometry_dict_to_object
+        return geometry_dict_to_object(a)
+    return a
 
 
 def mag(ps):
@@ -145,16 +174,22 @@ def check_one(ctx, rng, cls, op):
     isvec = cls in ('Vector2D', 'Vector3D')
     if isvec and op in ('move', 'scale'):
         return False
-    args, mp, mv, k, inv_args, pkey = params(rng, op, is3d)
+    args, pkey = gen_args(rng, op, is3d)
     if isvec:
-        # vectors: rotate(angle) / rotate(axis, angle) / reflect(normal): no origin
-        args = args[:-1]; inv_args = inv_args[:-1]
-    desc = {'class': cls, 'op': op, 'args': [repr(a) for a in args], 'object': repr(o.to_dict()) if hasattr(o, 'to_dict') else repr(o)}
+        args = args[:-1]      # vectors: rotate(angle) / rotate(axis, angle) / reflect(normal): no origin
+    return evaluate(ctx, cls, op, o, args, pkey)
+
+
+def evaluate(ctx, cls, op, o, args, pkey=None):
+    global _LOOSE
+    is3d = cls not in Bd.CLASSES_2D
+    isvec = cls in ('Vector2D', 'Vector3D')
+    mp, mv, k, inv_args = ref_maps(op, args, is3d, isvec)
+    desc = {'class': cls, 'op': op, 'args': [ser(a) for a in args], 'object': ser(o)}
     try:
         r = getattr(o, op)(*args)
     except Exception as e:
-        ctx.violation('%s.%s:raises' % (cls, op), '%s.%s raised %r' % (cls, op, e),
-                      dict(desc, state=rng_state(ctx)))
+        ctx.violation('%s.%s:raises' % (cls, op), '%s.%s raised %r' % (cls, op, e), desc)
         return True
     pts, vecs, lens, areas, vols, inv = feats(o)
     rpts, rvecs, rlens, rareas, rvols, rinv = feats(r)
@@ -169,37 +204,49 @@ def check_one(ctx, rng, cls, op):
     elif setcmp:
         rem = list(got_pts)
         for e in exp_pts:
-            hit = [g for g in rem if X.pclose(e, g, TOL, scale_)]
+            hit = [g for g in rem if X.pclose(e, g, TOL * _LOOSE, scale_)]
             if not hit:
                 bad = 'mapped vertex %s missing in result' % (tuple(float(c) for c in e),); break
             rem.remove(hit[0])
     else:
         for e, g in zip(exp_pts, got_pts):
-            if not X.pclose(e, g, TOL, scale_):
+            if not X.pclose(e, g, TOL * _LOOSE, scale_):
                 bad = 'point %s expected %s' % (tuple(float(c) for c in g), tuple(float(c) for c in e)); break
-    if bad is None and type(o).__name__ in ('Arc2D', 'Arc3D'):
+    if bad is None and type(o).__name__ in ('Arc2D', 'Arc3D') and o.is_circle:
+        if not r.is_circle:
+            bad = 'a full circle became a partial arc (a1=%r, a2=%r)' % (r.a1, r.a2)
+        else:
+            # every image of a circle point is at the radius from the new centre, in the new plane
+            for t in (0.1, 0.37, 0.8):
+                e = mp(X.fpt(o.point_at(t)))
+                rr = r.radius if is3d else r.r
+                if not X.close(X.sqd(e, X.fpt(r.c)), F(rr) ** 2, 1e-8 * _LOOSE, rr * rr):
+                    bad = 'image of a circle point is not on the transformed circle'
+                if is3d and abs(float(X.dot(X.fpt(r.plane.n), X.sub(e, X.fpt(r.c))))) > 1e-8 * scale_:
+                    bad = 'image of a circle point is off the transformed circle plane'
+    elif bad is None and type(o).__name__ in ('Arc2D', 'Arc3D'):
         e12 = sorted([tuple(float(c) for c in mp(X.fpt(o.p1))), tuple(float(c) for c in mp(X.fpt(o.p2)))])
         g12 = sorted([tuple(float(c) for c in X.fpt(r.p1)), tuple(float(c) for c in X.fpt(r.p2))])
-        if not all(X.pclose(a, b, 1e-8, scale_) for a, b in zip(e12, g12)):
+        if not all(X.pclose(a, b, 1e-8 * _LOOSE, scale_) for a, b in zip(e12, g12)):
             bad = 'arc end points %s expected %s' % (g12, e12)
         # sampled points of the original map onto the result curve (a mirror reverses the direction)
         for t in (0.1, 0.37, 0.8):
             if bad: break
             e = mp(X.fpt(o.point_at(t)))
             g = X.fpt(r.point_at(1 - t if op == 'reflect' else t))
-            if not X.pclose(e, g, 1e-8, scale_):
+            if not X.pclose(e, g, 1e-8 * _LOOSE, scale_):
                 bad = 'image of point_at(%s) is %s, the transformed arc has %s there' % (
                     t, tuple(float(c) for c in e), tuple(float(c) for c in g))
     if bad is None:
         for e, g in zip([mv(X.fpt(v)) for v in vecs], [X.fpt(v) for v in rvecs]):
             if cls in ('Cone', 'Cylinder', 'Plane') and op == 'scale':
                 pass
-            if not X.pclose(e, g, TOL, mag([e])):
+            if not X.pclose(e, g, TOL * _LOOSE, mag([e])):
                 bad = 'vector %s expected %s' % (tuple(float(c) for c in g), tuple(float(c) for c in e)); break
     if bad is None:
         for name, (a, b, pw) in (('length', (lens, rlens, 1)), ('area', (areas, rareas, 2)), ('volume', (vols, rvols, 3))):
             for x, y in zip(a, b):
-                if not X.close(F(x) * ak ** pw, y, 1e-8, 1e-12):
+                if not X.close(F(x) * ak ** pw, y, 1e-8 * _LOOSE, 1e-12):
                     bad = '%s %r -> %r, expected factor |k|^%d = %r' % (name, x, y, pw, float(ak ** pw)); break
             if bad: break
     if bad is None and inv != rinv:
@@ -223,7 +270,7 @@ def check_one(ctx, rng, cls, op):
                 continue
             if cls == 'Plane' and op == 'reflect' and nm == 'y':
                 e = X.smul(-1, e)     # y = n x x stays right-handed, so it is minus the mirrored y
-            if not X.pclose(e, g, 1e-9, 1.0):
+            if not X.pclose(e, g, 1e-9 * _LOOSE, 1.0):
                 bad = '%s = %s expected %s' % (nm, tuple(float(c) for c in g), tuple(float(c) for c in e)); break
     if bad is None and cls == 'Face3D':
         nw = X.newell([X.fpt(p) for p in r.boundary])
@@ -242,13 +289,23 @@ def check_one(ctx, rng, cls, op):
             opts = [X.fpt(p) for p in pts]
             sc = max(mag(opts), scale_)
             if setcmp:
-                okk = all(any(X.pclose(e, g, 1e-8, sc) for g in bpts) for e in opts)
+                okk = all(any(X.pclose(e, g, 1e-8 * _LOOSE, sc) for g in bpts) for e in opts)
             else:
-                okk = len(bpts) == len(opts) and all(X.pclose(e, g, 1e-8, sc) for e, g in zip(opts, bpts))
+                okk = len(bpts) == len(opts) and all(X.pclose(e, g, 1e-8 * _LOOSE, sc) for e, g in zip(opts, bpts))
             if not okk:
                 bad = 'inverse map does not return the original points'
         except Exception as e:
             bad = 'inverse map raised %r' % (e,)
+    if bad and cls in ('Arc2D', 'Arc3D') and op == 'reflect' and _LOOSE == 1.0 and 'raised' not in bad:
+        # is it a gross error or only the conditioning of the three-point / acos reconstruction?
+        scratch = core.Ctx(ctx.pid, ctx.tier, 0)
+        _LOOSE = 1e4
+        try:
+            evaluate(scratch, cls, op, o, args)
+        finally:
+            _LOOSE = 1.0
+        if not scratch.violations:
+            bad = 'PRECISION (agrees only to ~1e-5 relative, not 1e-9): ' + bad
     nontriv = not (op == 'scale' and k == 1)
     ctx.count('%s.%s' % (cls, op), key=pkey, sample=desc, nontrivial=nontriv)
     if bad:
@@ -270,6 +327,8 @@ def classify(cls, op, o, args, bad):
             return 'angle_gt_2pi'
     if 'raise' in bad:
         return 'raises'
+    if cls in ('Arc2D', 'Arc3D') and op == 'reflect' and 'PRECISION' in bad:
+        return 'precision'
     if 'area' in bad or 'volume' in bad or 'length' in bad:
         return 'measure'
     return 'image'
@@ -295,13 +354,14 @@ def explore(ctx):
 
 
 def replay(ctx, data):
-    import random
     d = data.get('data') or {}
     kind = data.get('kind', '')
     cls, rest = kind.split('.', 1)
     op = rest.split(':')[0]
-    # re-search with a dedicated generator: a replay re-runs the class/op exploration deterministically
-    c2 = core.Ctx(ctx.pid, ctx.tier, d.get('seed', 0) if isinstance(d, dict) else 0)
+    c2 = core.Ctx(ctx.pid, ctx.tier, 0)
+    if isinstance(d, dict) and 'object' in d and isinstance(d['object'], dict):
+        evaluate(c2, cls, op, deser(d['object']), [deser(a) for a in d['args']])
+        return any(v.kind == kind for v in c2.violations)
     for _ in range(400):
         check_one(c2, c2.rng, cls, op)
         if any(v.kind == kind for v in c2.violations):
